@@ -40,9 +40,28 @@ func unquoteStrace(s string) string {
 	return q
 }
 
+var reResumed = regexp.MustCompile(`^(\d+)\s+<\.\.\. (\w+) resumed>(.*)\)\s+=\s+(-?\d+|\?)(?:\s+(\w+))?`)
+
 func parseStrace(log string) []sysLine {
 	var out []sysLine
+	// a call during which another thread makes a call is logged in two pieces: "name(args <unfinished ...>" and
+	// "<... name resumed>rest) = ret"; the call is recorded where it completes
+	pending := map[string]string{}
 	for _, ln := range strings.Split(log, "\n") {
+		if m := reUnfinished.FindStringSubmatch(ln); m != nil {
+			pending[m[1]+"/"+m[2]] = m[3]
+			continue
+		}
+		if m := reResumed.FindStringSubmatch(ln); m != nil {
+			args, ok := pending[m[1]+"/"+m[2]]
+			if ok {
+				delete(pending, m[1]+"/"+m[2])
+				ln = fmt.Sprintf("%s %s(%s%s) = %s", m[1], m[2], args, m[3], m[4])
+				if m[5] != "" {
+					ln += " " + m[5]
+				}
+			}
+		}
 		if m := reSys.FindStringSubmatch(ln); m != nil {
 			pid, _ := strconv.Atoi(m[1])
 			ret := -999
